@@ -107,31 +107,40 @@ package action
 //@ func (*Configuration).execHook
 //@   props C12
 //@   requires cfgReady(cfg) && rl != nil && rl.Info != nil && hooksNonNil(rl.Hooks)
-//@   requires [none-in-flight] forall m string :: !Kunwatched[m]
-//@   ensures [gate] result == nil ==> forall m string :: !Kunwatched[m]
+//@   ensures [gate] result == nil ==> forall m string :: Kunwatched[m] ==> old(Kunwatched)[m]
 //@   ensures [touches-only-hook-resources] forall l kube.ResourceList :: KtouchedLists[l] && !old(KtouchedLists)[l] ==> fresh(l)
 //@   ensures [hooks-kept] len(rl.Hooks) == old(len(rl.Hooks)) && (forall j int :: 0 <= j && j < len(rl.Hooks) ==> rl.Hooks[j] == old(rl.Hooks[j]))
 //@   ensures [config-kept] cfg.KubeClient == old(cfg.KubeClient) && cfg.Releases == old(cfg.Releases)
+//@   ensures [C03] [records-only-this-release] forall k string :: k != mkkey(rl.Name, rl.Version) ==> Dst[k] == old(Dst)[k]
+//@   ensures [C03] [ledger-kept] Dex == old(Dex) && Dname == old(Dname) && Dver == old(Dver)
+//@   ensures [C03] [submits-only-this-release] (forall k string :: k != mkkey(rl.Name, rl.Version) ==> Dattempt[k] == old(Dattempt)[k]) && (Dattempt[mkkey(rl.Name, rl.Version)] == old(Dattempt)[mkkey(rl.Name, rl.Version)] || Dattempt[mkkey(rl.Name, rl.Version)] == rl.Info.Status)
+//@   ensures [C03] [release-kept] rl.Name == old(rl.Name) && rl.Version == old(rl.Version) && rl.Info == old(rl.Info) && (forall inf *release.Info :: inf.Status == old(inf.Status))
 //@   loop 1 invariant [sel] hooksNonNil(executingHooks) && (forall j int :: 0 <= j && j < len(executingHooks) ==> hasEvent(executingHooks[j], hook))
-//@   loop 1 invariant [quiet1] forall m string :: !Kunwatched[m]
+//@   loop 1 invariant [quiet1] forall m string :: Kunwatched[m] ==> old(Kunwatched)[m]
 //@   loop 1 invariant [own-array1] fresh(executingHooks)
 //@   loop 1 invariant [src] hooksNonNil(rl.Hooks)
 //@   loop 2 invariant [sel] hooksNonNil(executingHooks) && (forall j int :: 0 <= j && j < len(executingHooks) ==> hasEvent(executingHooks[j], hook))
-//@   loop 2 invariant [quiet2] forall m string :: !Kunwatched[m]
+//@   loop 2 invariant [quiet2] forall m string :: Kunwatched[m] ==> old(Kunwatched)[m]
 //@   loop 2 invariant [own-array2] fresh(executingHooks)
 //@   loop 2 invariant [h] h != nil
 //@   loop 3 invariant [nonnil] hooksNonNil(executingHooks)
 //@   loop 3 invariant [only-hooks3] forall l kube.ResourceList :: KtouchedLists[l] && !old(KtouchedLists)[l] ==> fresh(l)
 //@   loop 3 invariant [hooks-kept3] len(rl.Hooks) == old(len(rl.Hooks)) && (forall j int :: 0 <= j && j < len(rl.Hooks) ==> rl.Hooks[j] == old(rl.Hooks[j]))
 //@   loop 3 invariant [config-kept3] cfg.KubeClient == old(cfg.KubeClient) && cfg.Releases == old(cfg.Releases)
+//@   loop 3 invariant [C03] [records-only-this-release3] (forall k string :: k != mkkey(rl.Name, rl.Version) ==> Dst[k] == old(Dst)[k]) && Dex == old(Dex) && Dname == old(Dname) && Dver == old(Dver)
+//@   loop 3 invariant [C03] [submits-only-this-release3] (forall k string :: k != mkkey(rl.Name, rl.Version) ==> Dattempt[k] == old(Dattempt)[k]) && (Dattempt[mkkey(rl.Name, rl.Version)] == old(Dattempt)[mkkey(rl.Name, rl.Version)] || Dattempt[mkkey(rl.Name, rl.Version)] == rl.Info.Status)
+//@   loop 3 invariant [C03] [release-kept3] rl.Name == old(rl.Name) && rl.Version == old(rl.Version) && rl.Info == old(rl.Info) && (forall inf *release.Info :: inf.Status == old(inf.Status))
 //@   loop 3 invariant [selected] forall j int :: 0 <= j && j < len(executingHooks) ==> hasEvent(executingHooks[j], hook)
 //@   loop 3 invariant [weight-order] weightOrdered(executingHooks)
-//@   loop 3 invariant [one-at-a-time] forall m string :: !Kunwatched[m]
+//@   loop 3 invariant [one-at-a-time] forall m string :: Kunwatched[m] ==> old(Kunwatched)[m]
 //@   loop 3 invariant [default-policy] forall j int :: 0 <= j && j < #iter ==> len(executingHooks[j].DeletePolicies) > 0
-//@   loop 4 invariant [quiet4] forall m string :: !Kunwatched[m]
+//@   loop 4 invariant [quiet4] forall m string :: Kunwatched[m] ==> old(Kunwatched)[m]
 //@   loop 4 invariant [only-hooks4] forall l kube.ResourceList :: KtouchedLists[l] && !old(KtouchedLists)[l] ==> fresh(l)
 //@   loop 4 invariant [hooks-kept4] len(rl.Hooks) == old(len(rl.Hooks)) && (forall j int :: 0 <= j && j < len(rl.Hooks) ==> rl.Hooks[j] == old(rl.Hooks[j]))
 //@   loop 4 invariant [config-kept4] cfg.KubeClient == old(cfg.KubeClient) && cfg.Releases == old(cfg.Releases)
+//@   loop 4 invariant [C03] [records-only-this-release4] (forall k string :: k != mkkey(rl.Name, rl.Version) ==> Dst[k] == old(Dst)[k]) && Dex == old(Dex) && Dname == old(Dname) && Dver == old(Dver)
+//@   loop 4 invariant [C03] [submits-only-this-release4] (forall k string :: k != mkkey(rl.Name, rl.Version) ==> Dattempt[k] == old(Dattempt)[k]) && (Dattempt[mkkey(rl.Name, rl.Version)] == old(Dattempt)[mkkey(rl.Name, rl.Version)] || Dattempt[mkkey(rl.Name, rl.Version)] == rl.Info.Status)
+//@   loop 4 invariant [C03] [release-kept4] rl.Name == old(rl.Name) && rl.Version == old(rl.Version) && rl.Info == old(rl.Info) && (forall inf *release.Info :: inf.Status == old(inf.Status))
 //@   loop 4 invariant [nonnil4] hooksNonNil(executingHooks) && i < len(executingHooks)
 
 // ---- C13: value reuse policy (upgrade.go)
@@ -185,10 +194,12 @@ package action
 //@   ensures [C13] [current-is-deployed-if-any] result2 == nil && (exists v int :: Dex[mkkey(name, v)] && Dst[mkkey(name, v)] == "deployed") ==> result0.Info.Status == "deployed"
 //@   ensures [C13] [values-carried-from-current] result2 == nil ==> valuesCarriedFrom(result1.Config, result0)
 //@   ensures [results] result2 == nil ==> result0 != nil && result1 != nil && result1.Info != nil
+//@   ensures [C03] [distinct-revisions] result2 == nil ==> result0 != result1 && result0.Info != nil && result0.Info != result1.Info && hooksNonNil(result1.Hooks) && mkkey(result0.Name, result0.Version) != mkkey(result1.Name, result1.Version)
 
 //@ func (*Upgrade).performUpgrade
 //@   props C06
 //@   requires u != nil && cfgReady(u.cfg) && ledgerWF() && originalRelease != nil && upgradedRelease != nil && upgradedRelease.Info != nil
+//@   requires [C03] [distinct-revisions] originalRelease != upgradedRelease && originalRelease.Info != nil && originalRelease.Info != upgradedRelease.Info && hooksNonNil(upgradedRelease.Hooks) && mkkey(originalRelease.Name, originalRelease.Version) != mkkey(upgradedRelease.Name, upgradedRelease.Version)
 //@   ensures [dry-run-no-cluster-mutation] old(upgradeDryRun(u)) ==> Kmutated == old(Kmutated)
 //@   ensures [dry-run-no-storage-write] old(upgradeDryRun(u)) ==> Dwritten == old(Dwritten)
 //@   ensures [selectors-unchanged] upgradeDryRun(u) == old(upgradeDryRun(u))
@@ -207,10 +218,13 @@ package action
 
 //@ func (*Rollback).performRollback
 //@   props C06
-//@   requires r != nil && cfgReady(r.cfg) && ledgerWF() && currentRelease != nil && currentRelease.Info != nil && targetRelease != nil && targetRelease.Info != nil && hooksNonNil(targetRelease.Hooks) && (forall m string :: !Kunwatched[m])
+//@   requires r != nil && cfgReady(r.cfg) && ledgerWF() && currentRelease != nil && currentRelease.Info != nil && targetRelease != nil && targetRelease.Info != nil && hooksNonNil(targetRelease.Hooks)
 //@   ensures [dry-run-no-cluster-mutation] old(r.DryRun) ==> Kmutated == old(Kmutated)
 //@   ensures [dry-run-no-storage-write] old(r.DryRun) ==> Dwritten == old(Dwritten)
 //@   ensures [selector-unchanged] r.DryRun == old(r.DryRun)
+//@   ensures [C03] [failure-recorded-or-left-to-the-caller] result1 != nil && !old(r.DryRun) ==> (targetRelease.Info.Status == "failed" && Dattempt[mkkey(targetRelease.Name, targetRelease.Version)] == "failed") || targetRelease.Info.Status == old(targetRelease.Info.Status)
+//@   ensures [C03] [release-kept] targetRelease.Info == old(targetRelease.Info) && targetRelease.Name == old(targetRelease.Name) && targetRelease.Version == old(targetRelease.Version) && Dex == old(Dex) && Dname == old(Dname) && Dver == old(Dver)
+//@   ensures [C03] [success-marks-deployed] result1 == nil && !old(r.DryRun) ==> result0 == targetRelease && targetRelease.Info.Status == "deployed"
 
 //@ func (*Rollback).prepareRollback
 //@   props C06
@@ -224,9 +238,11 @@ package action
 
 //@ func (*Rollback).Run
 //@   props C06
-//@   requires r != nil && cfgReady(r.cfg) && ledgerWF() && (forall m string :: !Kunwatched[m])
+//@   requires r != nil && cfgReady(r.cfg) && ledgerWF()
 //@   ensures [dry-run-no-cluster-mutation] old(r.DryRun) ==> Kmutated == old(Kmutated)
 //@   ensures [dry-run-no-storage-write] old(r.DryRun) ==> Dwritten == old(Dwritten)
+// (the status last submitted for the new revision is "deployed" with an error only when the final storage write itself failed)
+//@   ensures [C03] [failed-rollback-never-leaves-the-new-revision-pending] result != nil && !old(r.DryRun) ==> forall v int :: !old(Dex)[mkkey(name, v)] && Dex[mkkey(name, v)] ==> Dattempt[mkkey(name, v)] == "failed" || Dattempt[mkkey(name, v)] == "deployed"
 
 // ---- C01: revision numbering and the deployed marker at the action level
 
@@ -247,6 +263,7 @@ package action
 //@   ensures [ok] result == nil ==> Dex[mkkey(r.Name, r.Version)] && Dst == store(old(Dst), mkkey(r.Name, r.Version), r.Info.Status)
 //@   ensures [failed] result != nil ==> Dst == old(Dst)
 //@   ensures [frame] Dex == old(Dex) && Dname == old(Dname) && Dver == old(Dver)
+//@   ensures [C03] [attempt-recorded] Dattempt == store(old(Dattempt), mkkey(r.Name, r.Version), r.Info.Status)
 
 //@ func (*Install).replaceRelease
 //@   props C01
@@ -296,28 +313,35 @@ package action
 //@   props C03
 //@   requires cfgReady(cfg) && r != nil && r.Info != nil
 //@   ensures [took-effect-or-not] Dst == store(old(Dst), mkkey(r.Name, r.Version), r.Info.Status) || Dst == old(Dst)
+//@   ensures [attempt-recorded] Dattempt == store(old(Dattempt), mkkey(r.Name, r.Version), r.Info.Status)
 //@   ensures [frame] Dex == old(Dex) && Dname == old(Dname) && Dver == old(Dver) && Kmutated == old(Kmutated) && Kunwatched == old(Kunwatched) && Kdeleted == old(Kdeleted) && Kcreated == old(Kcreated)
 
 //@ func (*Install).performInstall
 //@   props C03 C12
-//@   requires i != nil && cfgReady(i.cfg) && rel != nil && rel.Info != nil && hooksNonNil(rel.Hooks) && (forall m string :: !Kunwatched[m])
+//@   requires i != nil && cfgReady(i.cfg) && rel != nil && rel.Info != nil && hooksNonNil(rel.Hooks)
 //@   ensures [C12] [pre-hook-failure-touches-no-release-resource] at "failed pre-install" (KtouchedLists[resources] ==> old(KtouchedLists)[resources]) && (KtouchedLists[toBeAdopted] ==> old(KtouchedLists)[toBeAdopted]) && result1 != nil
 //@   ensures [C12] [post-hook-failure-fails-the-operation] at "failed post-install" result1 != nil
 //@   ensures [success-marks-deployed] result1 == nil ==> result0 == rel && rel.Info.Status == "deployed"
 //@   ensures [failure-returns-the-release] result1 != nil ==> result0 == rel
+//@   ensures [ledger-kept] Dex == old(Dex) && Dname == old(Dname) && Dver == old(Dver)
+//@   ensures [release-kept] rel.Info == old(rel.Info) && rel.Name == old(rel.Name) && rel.Version == old(rel.Version)
 
 //@ func (*Install).failRelease
 //@   props C03
-//@   requires i != nil && cfgReady(i.cfg) && rel != nil && rel.Info != nil && err != nil
-//@   ensures [marked-failed] !old(i.Atomic) ==> rel.Info.Status == "failed"
+//@   requires i != nil && cfgReady(i.cfg) && rel != nil && rel.Info != nil && err != nil && ledgerWF()
+//@   ensures [marked-failed] rel.Info.Status == "failed" || old(i.Atomic)
 //@   ensures [reports-error] result1 != nil && result0 == rel
-//@   ensures [non-atomic-records-failed] !old(i.Atomic) ==> Dst == store(old(Dst), mkkey(rel.Name, rel.Version), "failed") || Dst == old(Dst)
+//@   ensures [atomic-leaves-no-history] at "has been uninstalled due to atomic" forall v int :: !Dex[mkkey(old(i.ReleaseName), v)]
+//@   ensures [non-atomic-records-failed] !old(i.Atomic) ==> Dattempt[mkkey(rel.Name, rel.Version)] == "failed" && (Dst == store(old(Dst), mkkey(rel.Name, rel.Version), "failed") || Dst == old(Dst))
 
 //@ func (*Upgrade).failRelease
 //@   props C03
-//@   requires u != nil && cfgReady(u.cfg) && rel != nil && rel.Info != nil && err != nil && ledgerWF() && (forall m string :: !Kunwatched[m])
+//@   requires u != nil && cfgReady(u.cfg) && rel != nil && rel.Info != nil && err != nil && ledgerWF()
 //@   ensures [marked-failed] !old(u.Atomic) ==> rel.Info.Status == "failed"
 //@   ensures [reports-error] result1 != nil && result0 == rel
+//@   ensures [records-failed] !old(u.Atomic) ==> Dattempt[mkkey(rel.Name, rel.Version)] == "failed"
+//@   ensures [others-keep-status] !old(u.Atomic) ==> forall k string :: k != mkkey(rel.Name, rel.Version) ==> Dst[k] == old(Dst)[k] && Dattempt[k] == old(Dattempt)[k]
+//@   ensures [touches-only-this-release] !old(u.Atomic) ==> forall inf *release.Info :: inf != rel.Info ==> inf.Status == old(inf.Status)
 //@   ensures [no-cleanup-without-flag] !old(u.CleanupOnFail) && !old(u.Atomic) ==> Kdeleted == old(Kdeleted) && Kmutated == old(Kmutated)
 //@   ensures [cleanup-deletes-only-created] old(u.CleanupOnFail) && !old(u.Atomic) ==> Kdeleted == old(Kdeleted) || Kdeleted == store(old(Kdeleted), builtFrom(created), true)
 //@   loop 1 invariant Kdeleted == store(old(Kdeleted), builtFrom(created), true) && rel.Info.Status == "failed"
@@ -331,3 +355,84 @@ package action
 //@   requires h != nil && cfgReady(h.cfg)
 //@   ensures [sound] err == nil ==> len(result) > 0 && (forall j int :: 0 <= j && j < len(result) ==> stored(result[j]) && result[j].Name == name)
 //@   ensures [readonly] Dex == old(Dex) && Dst == old(Dst) && Dwritten == old(Dwritten) && Dname == old(Dname) && Dver == old(Dver) && Kmutated == old(Kmutated) && Kunwatched == old(Kunwatched) && Kdeleted == old(Kdeleted)
+
+//@ func NewHistory
+//@   props C03
+//@   ensures result != nil && fresh(result) && result.cfg == cfg
+
+// performInstallCtx runs performInstall in a goroutine and selects on the context: outside the
+// verified subset. Trusted: it hands back the release it was given (both branches do).
+//@ func (*Install).performInstallCtx
+//@   props C03
+//@   trusted
+//@   requires i != nil && cfgReady(i.cfg) && rel != nil && rel.Info != nil
+//@   ensures [returns-the-release] result0 == rel && rel.Info == old(rel.Info) && rel.Name == old(rel.Name) && rel.Version == old(rel.Version)
+//@   ensures [ledger-kept] Dex == old(Dex) && Dname == old(Dname) && Dver == old(Dver)
+//@   ensures [config-kept] i.cfg == old(i.cfg) && i.cfg.KubeClient == old(i.cfg.KubeClient) && i.cfg.Releases == old(i.cfg.Releases) && i.cfg.Releases.Driver == old(i.cfg.Releases.Driver)
+
+// ---- C01 / C03: uninstall without keep-history leaves no revision of the release
+
+//@ func NewUninstall
+//@   props C03
+//@   ensures result != nil && fresh(result) && result.cfg == cfg && !result.KeepHistory && !result.DryRun && !result.IgnoreNotFound && !result.DisableHooks
+
+//@ func (*Uninstall).purgeReleases
+//@   props C01 C03
+//@   requires u != nil && cfgReady(u.cfg) && relsNonNil(rels)
+//@   ensures [all-gone] result == nil ==> forall j int :: 0 <= j && j < len(rels) ==> !Dex[mkkey(rels[j].Name, rels[j].Version)]
+//@   ensures [never-adds] forall k string :: Dex[k] ==> old(Dex)[k]
+//@   ensures [only-these] forall k string :: old(Dex)[k] && !Dex[k] ==> (exists j int :: 0 <= j && j < len(rels) && k == mkkey(rels[j].Name, rels[j].Version))
+//@   ensures [frame] Dst == old(Dst) && Dname == old(Dname) && Dver == old(Dver) && Kmutated == old(Kmutated)
+//@   loop 1 invariant [gone-so-far] forall j int :: 0 <= j && j < #iter ==> !Dex[mkkey(rels[j].Name, rels[j].Version)]
+//@   loop 1 invariant [never-adds] forall k string :: Dex[k] ==> old(Dex)[k]
+//@   loop 1 invariant [only-these] forall k string :: old(Dex)[k] && !Dex[k] ==> (exists j int :: 0 <= j && j < #iter && k == mkkey(rels[j].Name, rels[j].Version))
+//@   loop 1 invariant [frame] Dst == old(Dst) && Dname == old(Dname) && Dver == old(Dver) && Kmutated == old(Kmutated)
+
+//@ func (*Uninstall).Run
+//@   props C01 C03
+//@   requires u != nil && cfgReady(u.cfg) && ledgerWF()
+//@   ensures [C01] [no-revisions-remain] err == nil && !old(u.KeepHistory) && !old(u.DryRun) && !old(u.IgnoreNotFound) ==> forall v int :: !Dex[mkkey(name, v)]
+//@   ensures [dry-run-no-mutation] old(u.DryRun) ==> Kmutated == old(Kmutated) && Dwritten == old(Dwritten)
+
+//@ func (*Uninstall).deleteRelease
+//@   props C03
+//@   requires u != nil && cfgReady(u.cfg) && rel != nil
+//@   ensures [hooks-kept] len(rel.Hooks) == old(len(rel.Hooks)) && (forall j int :: 0 <= j && j < len(rel.Hooks) ==> rel.Hooks[j] == old(rel.Hooks[j]))
+//@   ensures [storage-untouched] Dex == old(Dex) && Dst == old(Dst) && Dname == old(Dname) && Dver == old(Dver)
+
+// ---- C03: the upgrade worker. Every path reports exactly once on the channel; a failure is reported
+// as an error with the new revision marked failed, and the revision being replaced keeps the status it
+// had (it is only marked superseded on the path that reports success).
+
+//@ func (*Upgrade).reportToPerformUpgrade
+//@   props C03
+//@   requires u != nil && cfgReady(u.cfg) && (err != nil ==> rel != nil && rel.Info != nil && ledgerWF())
+//@   ensures [reports-once] nsent(c) == old(nsent(c)) + 1
+//@   ensures [error-stays-error] err != nil ==> sent(c).e != nil && sent(c).r == rel
+//@   ensures [failure-marks-failed] err != nil && !old(u.Atomic) ==> rel.Info.Status == "failed"
+//@   ensures [success-passes-through] err == nil ==> sent(c).e == nil && sent(c).r == rel && Dst == old(Dst) && Dex == old(Dex) && Kdeleted == old(Kdeleted) && Kmutated == old(Kmutated)
+//@   ensures [others-keep-status] !old(u.Atomic) ==> forall k string :: err == nil || k != mkkey(rel.Name, rel.Version) ==> Dst[k] == old(Dst)[k] && Dattempt[k] == old(Dattempt)[k]
+//@   ensures [failure-records-failed] err != nil && !old(u.Atomic) ==> Dattempt[mkkey(rel.Name, rel.Version)] == "failed"
+//@   ensures [touches-only-this-release] !old(u.Atomic) ==> forall inf *release.Info :: inf != rel.Info ==> inf.Status == old(inf.Status)
+//@   ensures [success-touches-nothing] err == nil ==> forall inf *release.Info :: inf.Status == old(inf.Status)
+
+//@ func (*Upgrade).releasingUpgrade
+//@   props C03 C01
+//@   requires u != nil && cfgReady(u.cfg) && ledgerWF() && upgradedRelease != nil && upgradedRelease.Info != nil && hooksNonNil(upgradedRelease.Hooks) && originalRelease != nil && originalRelease.Info != nil && originalRelease != upgradedRelease && originalRelease.Info != upgradedRelease.Info
+//@   requires [distinct-revisions] mkkey(originalRelease.Name, originalRelease.Version) != mkkey(upgradedRelease.Name, upgradedRelease.Version)
+//@   ensures [reports-once] nsent(c) == old(nsent(c)) + 1
+//@   ensures [reports-the-new-revision] sent(c).r == upgradedRelease
+//@   ensures [failure-marks-failed] sent(c).e != nil && !old(u.Atomic) ==> upgradedRelease.Info.Status == "failed"
+//@   ensures [failure-keeps-previous-revision-status] sent(c).e != nil && !old(u.Atomic) ==> originalRelease.Info.Status == old(originalRelease.Info.Status)
+//@   ensures [failure-keeps-previous-revision-record] sent(c).e != nil && !old(u.Atomic) ==> Dst[mkkey(originalRelease.Name, originalRelease.Version)] == old(Dst)[mkkey(originalRelease.Name, originalRelease.Version)] || Dst[mkkey(originalRelease.Name, originalRelease.Version)] == old(originalRelease.Info.Status)
+//@   ensures [failure-never-submits-another-status-for-the-previous-revision] sent(c).e != nil && !old(u.Atomic) ==> Dattempt[mkkey(originalRelease.Name, originalRelease.Version)] == old(Dattempt)[mkkey(originalRelease.Name, originalRelease.Version)] || Dattempt[mkkey(originalRelease.Name, originalRelease.Version)] == old(originalRelease.Info.Status)
+//@   ensures [failure-records-failed] sent(c).e != nil && !old(u.Atomic) ==> Dattempt[mkkey(upgradedRelease.Name, upgradedRelease.Version)] == "failed"
+//@   ensures [success-marks-deployed-and-superseded] sent(c).e == nil ==> upgradedRelease.Info.Status == "deployed" && originalRelease.Info.Status == "superseded"
+
+// renderResources (template rendering, post-renderers, manifest sorting) is not under contract; the one
+// fact its callers need here is that the hook list it returns has no nil entry (manifestFile.sort only
+// appends &release.Hook{...} literals). Trusted.
+//@ func (*Configuration).renderResources
+//@   props C03
+//@   trusted
+//@   ensures [hooks-non-nil] hooksNonNil(result0)
